@@ -367,8 +367,9 @@ class CallMixin:  # pylint:disable=too-many-public-methods
                 return ClassVal(v.cls)
             cls = self.model.classes.get(v.cls)
             if cls is not None:
-                m = self.model.find_method(cls, attr)
-                if m is not None:
+                member = self.model.class_member(cls, attr)
+                if member is not None and member[0] == "method":
+                    m = member[1]
                     if any((dotted(d) or "") == "staticmethod" for d in m.node.decorator_list):
                         return FuncVal(fn=m, module=m.module)
                     if any((dotted(d) or "") == "classmethod" for d in m.node.decorator_list):
@@ -376,11 +377,11 @@ class CallMixin:  # pylint:disable=too-many-public-methods
                     if any((dotted(d) or "") == "property" for d in m.node.decorator_list):
                         return self.run_function(FuncVal(fn=m, self_obj=v, module=m.module), [], {}, node)
                     return FuncVal(fn=m, self_obj=v, module=m.module)
-                ca = self.model.class_attr(cls, attr)
-                if ca is not None:
-                    key = (v.cls, "classattr", attr)
+                if member is not None:
+                    _kind, ca, owner = member
+                    key = (owner.qualname, "classattr", attr)
                     if key not in self.attr_memo:
-                        self.attr_memo[key] = self.eval(ca, self.class_frame(cls))
+                        self.attr_memo[key] = self.eval(ca, self.class_frame(owner))
                     return self.bind_class_attr(self.attr_memo[key], v)
             if cls is not None and self.model.is_transformer(cls) and attr == "transform":
                 return BoundExt(v, "transform")
@@ -682,6 +683,15 @@ class CallMixin:  # pylint:disable=too-many-public-methods
                 repl, text = args[0], args[1]
                 if isinstance(text, str) and isinstance(repl, str):
                     return rx.sub(repl, text)  # folding of a pure library function on literals
+                if isinstance(repl, (FuncVal, Obj)) and isinstance(text, (str, StrT)):
+                    def call_repl(m_):
+                        out_ = self.call(repl, [Obj("re.Match", {"m": m_})], {}, node, frame)
+                        if not isinstance(out_, str):
+                            raise Unsupported(f"regex replacement function returned {out_!r}")
+                        return out_
+                    if isinstance(text, str):
+                        return rx.sub(call_repl, text)
+                    return StrT(tuple(rx.sub(call_repl, p_) if isinstance(p_, str) else p_ for p_ in text.parts))
                 if isinstance(text, StrT) and isinstance(repl, str):
                     # only literal chunks can be rewritten; holes are kept (sound for patterns without '.'-like atoms
                     # spanning a hole: the rule using templates checks the pattern's language separately)
